@@ -160,7 +160,7 @@ Proof. rewrite (proj1 (W_eq AU true)). apply (proj1 outmeta_id). Qed.
 Lemma step_write t st o : is_write o = true -> consolidated_as t st ->
   exists t2, consolidated_as t2 (fst (step st o)) /\ shape_t t2 = shape_t t.
 Proof.
-  intros Ho (Hs & Hc & Hn). destruct o as [| path k b | | | | | | |]; try discriminate.
+  intros Ho (Hs & Hc & Hn). destruct o as [| path k b | | | | | | | | |]; try discriminate.
   unfold step. change (step_tree (cur st) (OWrite path k b)) with (at_path path (G k b) false (cur st)).
   destruct (at_path path (G k b) false (cur st)) as [[c' w]|] eqn:E.
   - rewrite Hc, <- W_mark in E. change 0 with (total_of AU true []) in E.
